@@ -232,7 +232,7 @@ def run_stream(sc: dict, wall_limit: float = 60.0) -> dict:
                     k = r["kind"]
                     if k == "429":
                         return fakeapi.Fault("status", 429, headers={"Retry-After": str(r.get("retry_after", 1))})
-                    if k in ("500", "403", "404"):
+                    if k in ("500", "403", "404", "410"):
                         return fakeapi.Fault("status", int(k))
                     if k == "conn":
                         return fakeapi.Fault("conn-before")
@@ -284,7 +284,11 @@ def run_stream(sc: dict, wall_limit: float = 60.0) -> dict:
                 cluster.edit(fakeapi.NAMESPACES, None, "default", {"metadata": {"labels": {"n": str(bump["n"])}}})
                 log_change(before, "default", None, vis_res=False)
             elif name == "break":
-                cluster.break_watches(KEX, op[1])
+                if op[1] == "error_nocode":     # an ERROR event whose Status has no `code`
+                    cluster.break_watches(KEX, "error", payload={"kind": "Status", "apiVersion": "v1", "metadata": {},
+                                                                 "status": "Failure", "message": "boom", "reason": "Unknown"})
+                else:
+                    cluster.break_watches(KEX, op[1])
             elif name == "bookmark":
                 push_all({"type": "BOOKMARK", "object": {"kind": "KopfExample", "apiVersion": "kopf.dev/v1",
                                                          "metadata": {"resourceVersion": str(cluster.rv)}}})
@@ -317,15 +321,16 @@ def run_stream(sc: dict, wall_limit: float = 60.0) -> dict:
                     if not state["on"]:
                         continue
                     if isinstance(ev, watching.Bookmark):
-                        obs.append(["yield", "LISTED", None, None])
+                        obs.append(["yield", "LISTED", None, None, loop.time()])
                     else:
                         meta = (ev.get("object") or {}).get("metadata", {})
-                        obs.append(["yield", ev.get("type"), meta.get("name"), meta.get("resourceVersion")])
+                        obs.append(["yield", ev.get("type"), meta.get("name"), meta.get("resourceVersion"), loop.time()])
             except asyncio.CancelledError:
                 raise
             except BaseException as e:  # noqa: BLE001
                 if state["on"]:
-                    kind = "unknownError" if isinstance(e, watching.WatchingError) else \
+                    # an ERROR event without `code` raises KeyError instead of WatchingError: it raises all the same
+                    kind = "unknownError" if isinstance(e, (watching.WatchingError, KeyError)) else \
                         "garbage" if isinstance(e, ValueError) else _classify_exc(e)
                     obs.append(["exc", kind, f"{type(e).__name__}: {e}"[:160]])
                     done["exc"] = f"{type(e).__name__}: {e}"[:200]
@@ -545,6 +550,56 @@ def run_operator(sc: dict, wall_limit: float = 60.0) -> dict:
                             "name": raw_event["object"]["metadata"]["name"],
                             "after": sorted(str(n) for n in insights.namespaces)})
         observation.process_discovered_namespace_event = obs_process  # type: ignore[assignment]
+        from kopf._core.reactor import orchestration
+        passes: list = []
+        orig_adjust = orchestration.adjust_tasks
+
+        # the orchestrator protocol as a label trace (Model/C19_Orchestrator): revise / acquire / termDone / spawnAll / die
+        from kopf._cogs.structs import references as _refs
+        orch_trace: list = []
+        watched_tasks: dict = {}
+
+        def snapshot(ins: Any) -> dict:
+            return {"watched": sorted(({"name": r.plural, "namespaced": bool(r.namespaced)} for r in ins.watched_resources),
+                                      key=lambda x: x["name"]),
+                    "namespaces": sorted(ins.namespaces, key=str)}
+
+        RealInsights = _refs.Insights
+
+        def make_insights(*a: Any, **k: Any) -> Any:
+            ins = RealInsights(*a, **k)
+            real_notify = ins.revised.notify_all
+
+            def notify_all() -> None:        # every writer of the insights calls it inside its critical section
+                orch_trace.append(["revise", snapshot(ins)])
+                real_notify()
+            ins.revised.notify_all = notify_all  # type: ignore[method-assign]
+            return ins
+        _refs.Insights = make_insights  # type: ignore[misc,assignment]
+        orig_terminate = orchestration.terminate_redundancies
+
+        async def obs_terminate(**kw: Any) -> None:
+            orch_trace.append(["acquire"])      # the redundant keys (incl. `task.done()`) are computed right here
+            await orig_terminate(**kw)
+            orch_trace.append(["termDone"])
+        orchestration.terminate_redundancies = obs_terminate  # type: ignore[assignment]
+
+        async def obs_adjust(**kw: Any) -> None:
+            t0 = loop.time()
+            await orig_adjust(**kw)
+            ens = kw["ensemble"]
+            orch_trace.append(["spawnAll", sorted(([k.resource.plural, k.namespace] for k in ens.watcher_tasks), key=str)])
+            for key, task in ens.watcher_tasks.items():
+                if watched_tasks.get(key) is not task:
+                    watched_tasks[key] = task
+
+                    def on_done(t: Any, key: Any = key) -> None:
+                        if not t.cancelled() and state_on["on"]:
+                            orch_trace.append(["die", [key.resource.plural, key.namespace]])
+                    task.add_done_callback(on_done)
+            passes.append([t0, loop.time()])
+        orchestration.adjust_tasks = obs_adjust  # type: ignore[assignment]
+        state_on = {"on": True}
         observation.revise_namespaces = obs_revise  # type: ignore[assignment]
 
         def open_watches() -> list:
@@ -616,6 +671,8 @@ def run_operator(sc: dict, wall_limit: float = 60.0) -> dict:
                 await asyncio.sleep(d)
             do(["check"])
             alive = op.alive
+            state_on["on"] = False
+            trace_at_end = list(orch_trace)
             err = None
             if not alive and op.task is not None:
                 with contextlib.suppress(BaseException):
@@ -626,7 +683,7 @@ def run_operator(sc: dict, wall_limit: float = 60.0) -> dict:
                     "watch_requests": [{"t": r["t"], "path": r["path"], "since": r["query"].get("resourceVersion"),
                                         "response": r["response"]} for r in cluster.requests
                                        if r["method"] == "GET" and r["query"].get("watch") == "true"],
-                    "ns_feed": ns_feed,
+                    "ns_feed": ns_feed, "passes": passes, "orch_trace": trace_at_end,
                     "not_found": sorted({r["path"].rstrip("/").split("/")[-1] for r in cluster.requests
                                          if r["method"] == "GET" and r["response"] == 404}),
                     "not_found_at": {r["path"].rstrip("/").split("/")[-1]: r["t"] for r in cluster.requests
@@ -636,6 +693,9 @@ def run_operator(sc: dict, wall_limit: float = 60.0) -> dict:
         finally:
             observation.revise_namespaces = orig_revise  # type: ignore[assignment]
             observation.process_discovered_namespace_event = orig_process  # type: ignore[assignment]
+            orchestration.adjust_tasks = orig_adjust  # type: ignore[assignment]
+            orchestration.terminate_redundancies = orig_terminate  # type: ignore[assignment]
+            _refs.Insights = RealInsights  # type: ignore[misc]
 
     try:
         return simloop.run_sim(main, wall_limit=wall_limit)
